@@ -147,7 +147,7 @@ def worker(cfg):
             ix = np.array([[core.Real("ix_%d_%d" % (c, p)) for p in range(Lp)] for c in range(Cc)], dtype=object)
             ir = np.array([[core.Real("ir_%d_%d" % (c, p)) for p in range(Lp)] for c in range(Cc)], dtype=object)
             inp = T.Tensor(np.stack([ix, ir]), dtype="float32")
-            mod = NN.MaxPool1d(K, stride=cfg.get("stride"), padding=cfg.get("padding", 0))
+            mod = NN.MaxPool1d(K, stride=cfg.get("stride"), padding=cfg.get("padding", 0), ceil_mode=cfg.get("ceil_mode", False))
             S_, P_ = (cfg.get("stride") or K), cfg.get("padding", 0)
             old = T.GRAD_ENABLED[0]
             T.GRAD_ENABLED[0] = False
@@ -184,7 +184,7 @@ def worker(cfg):
             m, unk = dl.split_prove(ctx, claims, "_maxpool rule lemma")
             out["unknown"] += unk
             if m is not None:
-                add("rule:maxpool", "_maxpool does not distribute grad_out * delta_out over the pooling window", dict(cfg, arch="convmaxpad" if cfg.get("padding") else ("convmaxov" if S_ < K else "convmax"), A=2, L=4 if cfg.get("padding") else 5, target=1, B=2, ns=2))
+                add("rule:maxpool", "_maxpool does not distribute grad_out * delta_out over the pooling window", dict(cfg, arch="convmaxceil" if cfg.get("ceil_mode") else "convmaxpad" if cfg.get("padding") else ("convmaxov" if S_ < K else "convmax"), A=2, L=6 if cfg.get("ceil_mode") else 4 if cfg.get("padding") else 5, target=1, B=2, ns=2))
             return "returned"
         core.explore(body, stats=stats, max_paths=5000)
 
@@ -289,6 +289,7 @@ def configs(tier):
     q = tier == "quick"
     cf = [dict(kind="lemma_nonlinear", n=2), dict(kind="lemma_maxpool", C=1, L=4, K=2), dict(kind="lemma_maxpool", C=1, L=3, K=3, padding=1),
           dict(kind="lemma_maxpool", C=1, L=3, K=2, stride=1),           # overlapping pooling windows
+          dict(kind="lemma_maxpool", C=1, L=3, K=2, ceil_mode=True),     # ceil_mode: partial last window (seed C04-r6m1)
           dict(kind="e2e", arch="dense1", A=2, L=2, B=1, ns=2, target=0, n_shuffles_arg=1),
           dict(kind="e2e", arch="dense1", A=2, L=2, B=1, ns=2, target=1), dict(kind="e2e", arch="affine", A=2, L=3, B=2, ns=2, target=0, batch_size=3),
           dict(kind="e2e", arch="conv", A=2, L=2, B=1, ns=1, target=0)]
